@@ -21,7 +21,7 @@ Checks(e) ==
     [] e.t = "orf" -> [errClass |-> (e.kind = "err") = (MaxORFLen(e.seqs, e.reverse) = 0),
                        longest  |-> e.kind = "ok" => LongestORFOK(e.seqs, e.reverse, e.orf),
                        inputsUnchanged |-> e.after = e.seqs]
-    [] e.t = "rel" -> [sameForAnyWorkerCount |-> e.r1 = e.r2]
+    [] e.t = "rel" -> [sameForAnyWorkerCount |-> ((\A k \in 1..Len(e.r1) : ~e.r1[k].err) /\ (\A k \in 1..Len(e.r2) : ~e.r2[k].err)) => e.r1 = e.r2]
     [] OTHER -> [knownEvent |-> FALSE]
 Next == /\ l <= Len(Trace)
         /\ LET ch == Checks(Trace[l])  f == {k \in DOMAIN ch : ~ch[k]}
